@@ -35,6 +35,8 @@ pub enum FaultKind {
     Error(io::ErrorKind),
     /// a write that accepts zero bytes
     ZeroWrite,
+    /// a write that accepts only this many bytes (at least 1, fewer than offered)
+    ShortWrite(usize),
 }
 
 #[derive(Clone, Copy, Debug)]
@@ -192,11 +194,14 @@ impl Read for Sim {
         let in_pos = s.pos;
         if let Some(f) = s.fault_now() {
             let k = match f {
-                FaultKind::Error(k) => k,
-                FaultKind::ZeroWrite => io::ErrorKind::Other,
+                FaultKind::Error(k) => Some(k),
+                FaultKind::ZeroWrite => Some(io::ErrorKind::Other),
+                FaultKind::ShortWrite(_) => None,
             };
-            s.log(OpKind::Read, buf.len(), Err(k), in_pos);
-            return Err(io::Error::new(k, "VERIF injected read fault"));
+            if let Some(k) = k {
+                s.log(OpKind::Read, buf.len(), Err(k), in_pos);
+                return Err(io::Error::new(k, "VERIF injected read fault"));
+            }
         }
         let limit = s.released_end();
         if s.pos >= limit {
@@ -244,6 +249,12 @@ impl Write for Sim {
                     s.log(OpKind::Write, buf.len(), Ok(0), in_pos);
                     return Ok(0);
                 }
+                FaultKind::ShortWrite(n) => {
+                    let n = n.max(1).min(buf.len().saturating_sub(1)).max(1).min(buf.len());
+                    s.out.extend_from_slice(&buf[..n]);
+                    s.log(OpKind::Write, buf.len(), Ok(n), in_pos);
+                    return Ok(n);
+                }
             }
         }
         let n = buf.len().min(s.write_cap);
@@ -261,11 +272,14 @@ impl Write for Sim {
         let in_pos = s.pos;
         if let Some(f) = s.fault_now() {
             let k = match f {
-                FaultKind::Error(k) => k,
-                FaultKind::ZeroWrite => io::ErrorKind::Other,
+                FaultKind::Error(k) => Some(k),
+                FaultKind::ZeroWrite => Some(io::ErrorKind::Other),
+                FaultKind::ShortWrite(_) => None,
             };
-            s.log(OpKind::Flush, 0, Err(k), in_pos);
-            return Err(io::Error::new(k, "VERIF injected flush fault"));
+            if let Some(k) = k {
+                s.log(OpKind::Flush, 0, Err(k), in_pos);
+                return Err(io::Error::new(k, "VERIF injected flush fault"));
+            }
         }
         s.flushed = s.out.len();
         s.log(OpKind::Flush, 0, Ok(0), in_pos);
